@@ -55,6 +55,33 @@ func TestC19Main(t *testing.T) {
 	})
 }
 
+func TestC19Hot(t *testing.T) {
+	mode := c19Mode()
+	pbt.Main(t, pbt.Spec[C19Scenario]{
+		ID: "C19", Facet: "hot",
+		Rule: "hot record: 2–6 writers × 3–16 calls on ONE record without pauses (2 in 3 cases IncrementInt64 +1..+3 only — the acknowledged values give the commit order exactly; otherwise mixed with Set document / Set int64 / PatchTreasures / Get), " +
+			"1–2 subscribers attached before the writers start; write mode drawn: immediate-write (write interval 0, 3 in 5), write interval 1 s, in-memory; same oracle as the main facet; " +
+			"non-trivial = changes of ≥2 writers to the record overlap in time while both must be delivered",
+		Quick: 480, Thorough: 9600,
+		Gen: genHot, Run: func(s C19Scenario) pbt.Outcome {
+			o := runC19(s, runOpts{Mode: mode, ID: "C19"})
+			if o.Fail == "" && !o.Skip {
+				o.NonTrivial = hasClass(o.Classes, "overlap-same-record-while-attached")
+			}
+			return o
+		},
+	})
+}
+
+func hasClass(cl []string, c string) bool {
+	for _, x := range cl {
+		if x == c {
+			return true
+		}
+	}
+	return false
+}
+
 func TestC19WitnessEventTime(t *testing.T) {
 	cfg := c19Cfg()
 	mode := c19Mode()
